@@ -12,5 +12,5 @@ for c in man["checks"]:
     except OSError:
         continue
     cov = e["coverage"]
-    partial = "partial" if "PARTIAL" in c["level_claimed"]["text"][:40].upper() or "_partial" in " ".join(cov.get("theorems", {})) else "no"
+    partial = "partial (see claim)" if "PARTIAL" in c["level_claimed"]["text"] else "no"
     print(f"| {pid} | {cov.get('discharged')}/{cov.get('obligations')} | {partial} | {cov.get('evaluations')} cases, {cov.get('distinct_nontrivial')} distinct non-trivial ({e['tier']}) | {cov.get('model_disagreements')} | {', '.join(cov.get('known_findings_seen', [])) or '—'} | {e['wall_s']} s |")
